@@ -83,6 +83,8 @@ let handle (toks : string list) : string =
             | Some clause -> "chk " ^ (string_of_clause clause)
             | None -> if model <> impl then "diff tumbling_pt_trace model=" ^ model else "ok nt")
        | _ -> "bad line")
+  | "R" :: _size :: "ok" :: _ -> "ok nt"
+  | "R" :: size :: "viol" :: rest -> "chk sql_processing_time size_ms=" ^ size ^ " " ^ String.concat " " rest
   | "Q" :: rest -> Winsql.handle_q rest
   | _ -> "bad line"
 
